@@ -738,6 +738,10 @@ def _gauss_config(cuqi, res, tally, cell, fac, shape, data, marg, mref, Sigma, s
             st, v = _call(res, g.logpdf, x)
             if st == "raised":
                 refused = v
+            elif st == "shape" and (fac.get("srep") == "1x1" or fac["mean"].endswith("1x1")):
+                res.refused += 1      # the (1,1) array is not accepted as a scalar by this parameter: counts as a refusal
+                res.outcomes.add("Gaussian:1x1-not-accepted")
+                return
             elif st == "shape":
                 tally.fail("logpdf-shape", fac, "logpdf of one point is not one number: %r" % (v,))
                 return
@@ -1483,6 +1487,10 @@ def _family_observe(res, tally, cell, fam, fac, d0, d, cond, R, offset):
             res.outcomes.add("%s:logpdf-refused:%s:%s" % (fam, tag, type(v).__name__))
             return False
         if st == "shape":
+            if fac.get("srep") == "1x1":      # the (1,1) array is not accepted as a scalar by this parameter: counts as a refusal
+                res.refused += 1
+                res.outcomes.add("%s:1x1-not-accepted:%s" % (fam, fac.get("sparam")))
+                return False
             tally.fail("logpdf-shape", fac, "%s.logpdf of one point is not one number: %r" % (fam, v))
             return False
         lp.append(v)
@@ -1910,7 +1918,10 @@ def _mrf_config(res, tally, fac, fam, m0, m, cond, pts, rf, tol, locname, offset
     for x in pts:
         st, v = _call(res, m.logpdf, x)
         if st != "ok":
-            if st == "shape":
+            if st == "shape" and (fac.get("loc", "").endswith("1x1") or fac.get("hyper", "").endswith("1x1")):
+                res.refused += 1      # the (1,1) array is not accepted as a scalar by this parameter: counts as a refusal
+                res.outcomes.add("%s:1x1-not-accepted" % fam)
+            elif st == "shape":
                 tally.fail("logpdf-shape", fac, "logpdf of one point is not one number: %r" % (v,))
             else:
                 res.refused += 1
